@@ -17,6 +17,7 @@ REAL_DEVS = ["capture.status_zero_without_writeheader", "capture.status_follows_
 # are hypothetical departures (the kind of slip the property is meant to catch), not behaviour of goa.
 GUARDS = [("rid", "rid.trusts_header_when_disabled", "TrustAndTruncate"),
           ("rid", "rid.truncate_off_by_one", "TrustAndTruncate"),
+          ("rid", "rid.custom_header_case_sensitive", "TrustAndTruncate"),
           ("rid", "rid.empty_when_untrusted", "RequestIDNonEmpty"),
           ("rid", "grpc.metadata_not_rewritten", "MetadataCarriesRequestID"),
           ("rid", "log.own_request_id", "LogCarriesRequestID"),
@@ -111,7 +112,8 @@ def rid_class(case):
     th = trusted_header(c)
     where = "absent" if r["ridAt"] == "none" or r["ridLen"] == 0 else ("trusted" if r["ridAt"] == th else "untrusted")
     rel = "nolimit" if c["limit"] == 0 else "lt" if r["ridLen"] < c["limit"] else "eq" if r["ridLen"] == c["limit"] else "gt"
-    return "%s/len_%s_limit" % (where, rel)
+    name = "" if c.get("hname", "canon") == "canon" else "/configured_name_" + c["hname"]
+    return "%s/len_%s_limit%s" % (where, rel, name)
 
 
 def classify(case, pred, obs):
